@@ -71,15 +71,14 @@ def getitem (m : ODict) (E : Externals) (cfg : Cfg) (k : PyVal) : ODict × Out :
   (m, Index.keyErr (look m E cfg (keyOf E cfg k)))
 
 /-- `index[key] = value`.  A value that cannot be written (text with a lone surrogate) or a key or
-value cell the database cannot bind changes nothing (the model of the call returns `None` in
-every case). -/
+value cell the database cannot bind raises UnicodeEncodeError and changes nothing. -/
 def setitem (m : ODict) (E : Externals) (cfg : Cfg) (k v : PyVal) : ODict × Out :=
   match place E cfg.disk cfg.minFileSize v false with
-  | .error _ => (m, .none)
+  | .error _ => (m, .exc "UnicodeEncodeError")
   | .ok p =>
     let e := entryOf p none .null
     if bindable (keyOf E cfg k).1 && bindable e.val then (m.set (keyOf E cfg k) e, .none)
-    else (m, .none)
+    else (m, .exc "UnicodeEncodeError")
 
 /-- `del index[key]`: KeyError when the key is unbound -/
 def delitem (m : ODict) (E : Externals) (cfg : Cfg) (k : PyVal) : ODict × Out :=
@@ -112,7 +111,8 @@ def peekitem (m : ODict) (E : Externals) (cfg : Cfg) (last : Bool) : ODict × Ou
     | .default => (m, .exc "KeyError")
     | o => (m, .tup [keyOut E cfg.disk K.1 K.2, o])
 
-/-- `index.popitem(last)`: remove and return the last (first) item; KeyError when empty -/
+/-- `index.popitem(last)`: remove and return the last (first) item; KeyError when empty (the
+dictionary is unchanged then) -/
 def popitem (m : ODict) (E : Externals) (cfg : Cfg) (last : Bool) : ODict × Out :=
   match m.edge last with
   | none => (m, .exc "KeyError")
@@ -131,9 +131,15 @@ def iter (m : ODict) (E : Externals) (cfg : Cfg) (asc : Bool) : ODict × Out :=
 /-- `index.clear()` -/
 def clear (_ : ODict) : ODict × Out := ([], .none)
 
-/-- `index.update(pairs)`: one assignment per pair, in order -/
+/-- `index.update(pairs)`: one assignment per pair, in order, stopping at the first one that raises:
+the pairs before it stay assigned, the exception propagates -/
 def update (m : ODict) (E : Externals) (cfg : Cfg) (kvs : List (PyVal × PyVal)) : ODict × Out :=
-  (kvs.foldl (fun m kv => (setitem m E cfg kv.1 kv.2).1) m, .none)
+  match kvs with
+  | [] => (m, .none)
+  | kv :: kvs =>
+    match setitem m E cfg kv.1 kv.2 with
+    | (m1, .exc e) => (m1, .exc e)
+    | (m1, _) => update m1 E cfg kvs
 
 end OSpec
 
